@@ -210,12 +210,15 @@ fn slot_reuse_failure(seq: &[TD], hash: bool) -> Option<String> {
         let mut slot: Term = seq[0].build();
         let mut outer: Term = Term::new_product(vec![seq[0].build()]);
         let mut prev_canon = String::new();
+        // (the copies stay alive to the end, so that no copy is allocated where an earlier one was)
+        let mut keep: Vec<Box<Term>> = vec![];
         for (i, d) in seq.iter().enumerate() {
             slot = d.build();
             outer = Term::new_product(vec![d.build()]);
-            let elsewhere = Box::new(d.build());
-            let outer_elsewhere = Box::new(Term::new_product(vec![d.build()]));
-            for (what, a, b) in [("the term", &slot, &*elsewhere), ("a product around the term", &outer, &*outer_elsewhere)] {
+            keep.push(Box::new(d.build()));
+            keep.push(Box::new(Term::new_product(vec![d.build()])));
+            let (elsewhere, outer_elsewhere) = (&keep[keep.len() - 2], &keep[keep.len() - 1]);
+            for (what, a, b) in [("the term", &slot, &**elsewhere), ("a product around the term", &outer, &**outer_elsewhere)] {
                 if hash {
                     let (h1, h2) = (hash_with(a, DefaultHasher::new()), hash_with(b, DefaultHasher::new()));
                     if h1 != h2 {
